@@ -164,10 +164,14 @@ TrSilentDecode ==
 
 (* ---- a handler reports that it is running ------------------------------ *)
 OwnerMethod ==      \* the method the decoded value was generated from
-    LET part == P.parts[dec.part] IN
-    IF ep \in EnumKinds THEN CHOOSE m \in EOwnersIn(part, ep, doc.key) : TRUE ELSE EMethodsOf(part, ep)[1]
+    LET part == IF dec.part \in 1..Len(P.parts) THEN P.parts[dec.part] ELSE NoPart IN
+    IF ep \in EnumKinds THEN (IF EOwnersIn(part, ep, doc.key) # {} THEN CHOOSE m \in EOwnersIn(part, ep, doc.key) : TRUE ELSE NoMethod)
+    ELSE IF Len(EMethodsOf(part, ep)) > 0 THEN EMethodsOf(part, ep)[1] ELSE NoMethod
 
-BodyOf(dj) == IF ep \in EnumKinds THEN dj.f[1].v ELSE dj        \* the object holding the arguments
+EmptyObj == [t |-> "o", f |-> <<>>]
+BodyOf(dj) ==        \* the object holding the arguments (a document that has none -- not an object, no member -- holds no arguments)
+    IF ~IsObj(dj) THEN EmptyObj
+    ELSE IF ep \in EnumKinds THEN (IF Len(dj.f) >= 1 /\ IsObj(dj.f[1].v) THEN dj.f[1].v ELSE EmptyObj) ELSE dj
 SentArgsOk(e, dj) ==        \* every logged argument equals the member of the same name in the document
     \A i \in 1..Len(e.args) :
         LET hits == {x \in 1..Len(BodyOf(dj).f) : BodyOf(dj).f[x].k = e.args[i].n} IN
